@@ -55,6 +55,15 @@ CHECKS.update({
          'sequences and every construct/put line must be the spec action.',
          TRUSTED + '; restore validation is claimed for Input only', '6 C17'),
 })
+CHECKS.update({
+ 'C15': (MC, 'TLC model checking of Circuit.tla (all construction scripts over 3 blocks; two-pass procedure = declarative definition) + sharpness self-test + batch trace validation of real finalize()/start',
+         'Circuit.tla defines the finalized connection data declaratively (Resolve, iconn/oconn biconditional, unique inverter) and as the two-pass '
+         'procedure of _finalize; TLC proves they coincide for all scripts over 3 blocks and must find the single-pass deviation; random construction '
+         'scripts (<=8 blocks, references by object / name / _not_ shortcut / Const / plain constant, groups, events and filter control blocks by name, '
+         'invalid references of 13 classes) run on the real edzed with explicit finalize() or a start; the recorded inputs / iconnections / oconnections / '
+         'get_conf / Event.dest / frozen-ness must equal the specification.',
+         TRUSTED, '6 C15'),
+})
 NA = {}
 ALL = [f'C{n:02d}' for n in range(1, 21)]
 
